@@ -233,7 +233,7 @@ def check_mirrors(repo):
             raise ToolError('type mirror drift: %s `%s` has variants %s but prelude/%s has %s' % (src, what, sorted(a), pfile, sorted(b)))
 
 
-CONST_RE = re.compile(r'^(?:pub(?:\([a-z]+\))?\s+)?const\s+([A-Z][A-Z0-9_]*)\s*:\s*(u8|u16|u32|u64|usize|i32|i64|bool)\s*=\s*([0-9][0-9A-Za-z_]*|true|false)\s*;\s*(//.*)?$')
+CONST_RE = re.compile(r'^(?:pub(?:\([a-z]+\))?\s+)?const\s+([A-Z][A-Z0-9_]*)\s*:\s*(u8|u16|u32|u64|usize|i32|i64|bool|&\s*str|&\s*\'static\s+str)\s*=\s*([0-9][0-9A-Za-z_]*|true|false|"(?:[^"\\\\]|\\\\.)*")\s*;\s*(//.*)?$')
 
 
 def module_consts(repo, paths):
@@ -247,7 +247,10 @@ def module_consts(repo, paths):
         for l in lines:
             m = CONST_RE.match(l)    # column 0 only: module level
             if m:
-                out.append((m.group(1), 'pub const %s: %s = %s;' % (m.group(1), m.group(2), m.group(3)), sp))
+                ty = m.group(2)
+                if ty.replace(' ', '') == '&str':
+                    ty = "&'static str"      # the elided lifetime of a const item, spelled out (the generated module is inside verus!)
+                out.append((m.group(1), 'pub const %s: %s = %s;' % (m.group(1), ty, m.group(3)), sp))
     return out
 
 
